@@ -20,6 +20,9 @@ import FpgoVerif.Model.C12Sys
     * `askmsg cap=… n=… m=… seed=…`  an `ActorDef[interface{}]` whose messages are plain values AND Ask objects (`*AskDef`
       sent by `AskChannel`, buffered reply channels so that a sender can have several requests in flight), slow effect,
       overlap / per-sender order / exactly-once monitors; observation `ok delivered=<n*m>`.
+    * `nilmsg t=I|P cap=… n=… m=… seed=…`  an `ActorDef[interface{}]` (I) or `ActorDef[*T]` (P) whose per-sender sequences contain
+      untyped nil and typed nil pointer messages between ordinary ones: a nil message is a message like any other (exactly once,
+      in order); observation `ok delivered=<n*m>`.
     * `fresh k=… cap=… posters=<k> m=<m> rounds=<R> seed=…`  R fresh mailboxes, on each one k goroutines released by a
       barrier make the very first posts at the same moment (m messages each); observation `ok rounds=<R>`.
     * `tree: new <cap> ; spawn <p> ; close <a> ; send <a> ; parent <c> ; child <p> <c> ; closed <a>`  sequential
@@ -189,6 +192,7 @@ def runTree (line : String) : String :=
 def handle (line : String) : String :=
   if line.startsWith "sched " then runSched line
   else if line.startsWith "stress " then runStress line
+  else if line.startsWith "nilmsg " then s!"ok delivered={kvNat (line.splitOn " ") "n" * kvNat (line.splitOn " ") "m"}"
   else if line.startsWith "askmsg " then s!"ok delivered={kvNat (line.splitOn " ") "n" * kvNat (line.splitOn " ") "m"}"
   else if line.startsWith "fresh " then s!"ok rounds={kvNat (line.splitOn " ") "rounds"}"
   else if line.startsWith "tree" then runTree line
@@ -343,7 +347,7 @@ def treeSpec (line : String) : String :=
 
 def judge (line impl : String) : String :=
   if line.startsWith "sched " then judgeSched line impl
-  else if line.startsWith "stress " || line.startsWith "fresh " || line.startsWith "askmsg " then
+  else if line.startsWith "stress " || line.startsWith "fresh " || line.startsWith "askmsg " || line.startsWith "nilmsg " then
     if impl.startsWith "ok" then "allowed the monitors saw no violation" else s!"violation monitor: {impl}"
   else if line.startsWith "tree" then
     if impl == treeSpec line then "allowed agrees with the spawn-tree spec"
